@@ -642,7 +642,7 @@ func Spec() *core.Spec {
 		Rule: "for each of the 26 fluent request builders plus Client.Request, Client.Batch, the version-discovery exchange of Dial and Client.Signer: a scripted server answers from the complete product " +
 			"{header batch count 0,1,2} x {items 0,1,2} x {operation: requested, other registered, unknown, absent} x {status: Success, Failed, Pending, Undone, unknown} x {reason: none, registered, unknown} x {payload: absent, right, another operation's, opaque} (1443 shapes per entry point), " +
 			"plus seeded random well-formed responses with extensions and async values; plus every batch of 2, 3 and 4 requests answered item by item from {right, failed, pending, success with another operation's payload, success without payload, success answering another operation} (each item judged at its position); every (value, error) outcome is inspected under a panic monitor. Unwrap() must surface any failed item; response items without Result Status; Request Messages sent by the server instead of / ahead of the response; reason Operation Not Supported under every status (discovery fallback only for a FAILED item); the server's message contains percent signs; distinct = distinct (entry point, response shape)",
-		Required: []string{"exchanges", "calls_succeeded", "calls_failed", "failed_item_errors_inspected", "negotiations", "failed_discovery_errors_inspected", "shared_client_calls", "signer_sign_calls", "signer_linked_key_refusals", "refused_calls_after_an_abandoned_call", "answers_followed_by_hang_up", "signer_calls", "batch_exchanges", "batch_items_inspected", "batch_unwraps_with_failed_item", "statusless_exchanges", "server_request_exchanges"},
+		Required: []string{"exchanges", "calls_succeeded", "calls_failed", "failed_item_errors_inspected", "negotiations", "failed_discovery_errors_inspected", "shared_client_calls", "signer_sign_calls", "signer_linked_key_refusals", "refused_calls_after_an_abandoned_call", "answers_followed_by_hang_up", "answers_followed_by_hang_up.answer-written-in-full", "signer_calls", "batch_exchanges", "batch_items_inspected", "batch_unwraps_with_failed_item", "statusless_exchanges", "server_request_exchanges"},
 		Families: []core.Family{
 			{Name: "shapes", Exhaustive: true, N: func(string) int { return len(bs) * nShapes }, Run: func(c *core.Ctx, r *core.Rand, i int) {
 				b := bs[i%len(bs)]
